@@ -2,7 +2,7 @@
 # confirm_seed.sh <PROP> <mN> : confirm a sub-agent's mutation in a scratch worktree of /repo HEAD:
 #  (1) patch applies, builds (default + no-default-features), (2) pinned suite passes on the mutant,
 #  (3) demo fails on the mutant, (4) demo passes on the unmodified tree. Writes /tmp/mutout/<PROP>/<mN>/confirm.json
-P=$1; M=$2; SRC=/tmp/mutout/$P/$M; WT=/tmp/wt_$P$M; OUT=$SRC/confirm.json
+P=$1; M=$2; SRC=${MUTOUT:-/tmp/mutout}/$P/$M; WT=/tmp/wt_$P$M; OUT=$SRC/confirm.json
 export CARGO_NET_OFFLINE=true CARGO_TARGET_DIR=$WT/target
 rm -rf $WT; git -C /repo worktree add -q --detach $WT HEAD || exit 2
 cd $WT
